@@ -593,10 +593,27 @@ def blank_cases(rng: random.Random) -> List[JCase]:
     return out
 
 
+def affix_cases(rng: random.Random) -> List[JCase]:
+    """Every prefix / suffix of a small set (the empty one, single characters, a regex metacharacter, a line feed)
+    against every string of a small set, bare, inside a list and as a record member."""
+    out: List[JCase] = []
+    affixes = ["", "a", "ab", "b", ".", "a.b", "\n", " ", "abc", "$", "^a"]
+    strs = ["", "a", "ab", "ba", "abc", "a.b", "aXb", "\n", "a\n", "b", " a", "a ", ".", "$", "^a", "xab"]
+    for kind in ("PStartsWith", "PEndsWith"):
+        for af in affixes:
+            v = ("Scalar", ("KStr",), None, [], [(kind, S(af))], [])
+            for st in strs:
+                out.append(JCase(v, S(st), None, "affix"))
+            out.append(JCase(("ListV", v, [], [], None), ("VList", [S(st_) for st_ in strs[:6]]), None, "affix"))
+            out.append(JCase(("ListV", v, [], [], None), ("VList", [S(af + "x" + af)]), None, "affix"))
+            out.append(JCase(("DictAnyV", [P(S("k"), v)], None, None, False), ("VDict", [P(S("k"), S(af + "x" + af))]), None, "affix"))
+    return out
+
+
 def gen_cases(rng: random.Random, n: int) -> List[JCase]:
     """The explicit families, a stream that is the same on every run (private generator), and n cases from the
     run's own seed - how many explicit cases there are never shortens the generated part."""
-    out: List[JCase] = sharing_cases(rng) + unique_cases(rng) + record_null_cases(rng) + float_neighbour_cases(rng) + blank_cases(rng)
+    out: List[JCase] = sharing_cases(rng) + unique_cases(rng) + record_null_cases(rng) + float_neighbour_cases(rng) + blank_cases(rng) + affix_cases(rng)
     return out + random_cases(random.Random(110911), 500) + random_cases(rng, n)
 
 
